@@ -105,9 +105,19 @@ def run(repo):
     if count_var is None:
         raise AnalysisError('rule_var: `<decision>.ro_first = <running sum>` not found')
     incs = {}
-    for n in walk_no_nested(rv.node):
+    from .common import zip_elem_defs, expand_locals as _xl
+    zdefs = zip_elem_defs(rv.node)            # for dvar, width in zip(self.dec_vars, widths): width is size*len(..)
+    for n in sorted(walk_no_nested(rv.node), key=lambda x: (getattr(x, 'lineno', 0), getattr(x, 'col_offset', 0))):
         a = accum(n)
-        if a is not None and a[0] in (count_var, w['base']):
+        if a is not None and a[0] in (count_var, w['base']) and a[0] not in incs:
+            # (the first accumulation in document order: the block of the constant columns, where the
+            #  index expression found above lives; the name is reused for the coefficient columns further down)
+            if zdefs:
+                a = (a[0], _xl(rv.node, a[1], defs=zdefs))
+            for f_ in mul_factors(wx(a[1])):
+                if isinstance(f_, ast.Name):
+                    raise AnalysisError('rule_var: the running sum `%s` advances by `%s`, a local the rule cannot '
+                                        'read through' % (a[0], f_.id))
             incs[a[0]] = sorted(ntext(f).split('.')[-1] if not ntext(f).startswith('len(') else
                                 'len(' + ntext(f)[4:-1].split('.')[-1] + ')' for f in mul_factors(wx(a[1])))
     if count_var not in incs or w['base'] not in incs:
